@@ -128,6 +128,19 @@ def cases(ctx):
         yield {"kind": "history", "budget": 3, "hardware": "nv", "transpile": True,
                "ops": [{"op": "new", "q": "a"}, {"op": "flush"}, {"op": "new", "q": "b"}, {"op": "measure", "q": "b", "inplace": False},
                        {"op": "flush"}]}
+        # a fidelity-constrained request whose pairs get NON-consecutive ids (an id in between is held by another handle), retried
+        for role in ("create", "recv"):
+            for retries in (1, 2):
+                yield {"kind": "history", "budget": 5, "hardware": "generic", "transpile": False,
+                       "ops": [{"op": "new", "q": "a"}, {"op": "new", "q": "b"}, {"op": "new", "q": "c"}, {"op": "free", "q": "a"},
+                               {"op": "epr_retry", "role": role, "n": 2, "names": ["p0", "p1"], "retries": retries}, {"op": "flush"},
+                               {"op": "gate", "g": "X", "q": "b"}, {"op": "gate", "g": "H", "q": "c"}, {"op": "cnot", "c": "p0", "t": "p1"},
+                               {"op": "flush"}, {"op": "measure", "q": "b", "inplace": False}, {"op": "free", "q": "p1"}, {"op": "flush"}]}
+                yield {"kind": "history", "budget": 5, "hardware": "generic", "transpile": False,
+                       "ops": [{"op": "new", "q": "a"}, {"op": "new", "q": "b"}, {"op": "new", "q": "c"}, {"op": "new", "q": "d"},
+                               {"op": "free", "q": "a"}, {"op": "free", "q": "c"},
+                               {"op": "epr_retry", "role": role, "n": 3, "names": ["p0", "p1", "p2"], "retries": retries}, {"op": "flush"},
+                               {"op": "gate", "g": "X", "q": "b"}, {"op": "gate", "g": "H", "q": "d"}, {"op": "flush"}]}
     for _ in range(ctx.n(120, 10000)):
         yield {"kind": "two-apps", "role": rng.choice(["recv", "create"]), "pairs": rng.choice([1, 2]), "a_local": rng.choice([0, 1, 2]),
                "b_ops": rng.randrange(1, 8), "seed": rng.randrange(2**31)}
